@@ -149,8 +149,19 @@ def mk_session(sid):
     s.sessionID = bytearray(sid.encode())
     s.masterSecret = bytearray(48)
     s.resumable = True
+    # sessions of servers that issue tickets carry them: every other one holds a TLS <= 1.2 ticket, every third a
+    # TLS 1.3 one (an invalidated session is invalid whatever it carries)
+    _MK[0] += 1
+    if _MK[0] % 2 == 0:
+        s.tls_1_0_tickets = [bytearray(b"ticket-%d" % _MK[0])]
+    if _MK[0] % 3 == 0:
+        from tlslite.messages import NewSessionTicket
+        s.tickets = [NewSessionTicket().create(3600, 0, bytearray(b"\x01"), bytearray(b"ticket13-%d" % _MK[0]), [])]
     assert s.valid()
     return s
+
+
+_MK = [0]
 
 
 def _where(exc):
